@@ -345,7 +345,13 @@ func TestC12_Sign(t *testing.T) {
 		c.Base.ViaKey = false
 		c.Edits = genEdits(rt, true)
 		// hash algorithm / length classes
-		switch rapid.IntRange(0, 5).Draw(rt, "hashclass") {
+		switch rapid.IntRange(0, 6).Draw(rt, "hashclass") {
+		case 6:
+			// identifiers of signature algorithms given as payload hash algorithm, with a digest as long as the hash
+			// inside that signature algorithm: whatever is made of them, 258 carries the identifier that was given
+			i := rapid.IntRange(0, 5).Draw(rt, "sigalg-as-hash")
+			c.Base.HashAlg = []int64{-7, -35, -36, -37, -38, -39}[i]
+			c.Base.Hash = gen.Blob(rt, "sighash", []int{32, 48, 64, 32, 48, 64}[i])
 		case 0:
 			c.Base.HashAlg = rapid.SampledFrom([]int64{-14, -15, -17, 0, 1, -100000, -7, -9223372036854775808, -9223372036854775807, 9223372036854775807, -45, -42}).Draw(rt, "unknown-hash")
 			c.Base.Hash = gen.Blob(rt, "uhash", rapid.IntRange(0, 70).Draw(rt, "uhashlen"))
